@@ -93,7 +93,8 @@ reg = {
         "txcommit": {"overlay": "units/txcommit.ovl", "canaries": ["canary_txcommit"],
                      "helpers": ["lock", "from", "into_iter", "collect", "is_empty", "system_freed_pages", "drop_unpersisted_data_freed_after",
                                  "take_post_commit_allocations", "record_unpersisted_data_freed", "flush_and_close", "adopt_unpersisted", "page_allocator",
-                                 "store_data_freed_pages", "non_durable_commit", "durable_commit", "apply_savepoint_state_on_commit"]},
+                                 "store_data_freed_pages", "non_durable_commit", "durable_commit", "apply_savepoint_state_on_commit",
+                                 "needs_repair", "mark_needs_repair", "clear_needs_repair", "check_io_errors", "abort_inner_impl"]},
         # the catalog walk and the multimap subtree walk between dbverify and merkle
         "tableverify": {"overlay": "units/tableverify.ovl", "canaries": ["canary_tableverify"],
                         "helpers": ["clone", "get_page", "new", "verify_checksum", "fixed_width", "fixed_width_with", "next", "parse_subtree_roots", "value", "range", "hint"]},
@@ -253,7 +254,7 @@ P["C06"] = {
 P["C07"] = {
     "level": "proof",
     "kani": [K["C07-K1s"], K["C07-K1n"]],
-    "verus": [{"unit": "txcommit", "functions": ["WriteTransaction::commit_inner_helper", "Mutex::lock"]}],
+    "verus": [{"unit": "txcommit", "functions": ["WriteTransaction::commit_inner_helper", "WriteTransaction::abort_inner", "Mutex::lock"]}],
     "assumptions": ["X1 (txcommit unit): every callee of commit_inner_helper appends its step to a ghost log and leaves the transaction's configuration alone; durable_commit applies the savepoint bookkeeping itself after its commit point; both commit callees leave the freed-page lists empty on success (what the final assertions of the real function check at run time); one-thread Mutex model"],
     "native": [dict(NATIVE["X-pins3"], id="C07-X-pins3"), dict(NATIVE["X-pins4"], id="C07-X-pins4"), dict(NATIVE["X-unp3"], id="C07-X-unp3"), dict(NATIVE["X-spstate"], id="C07-X-spstate")],
     "explanation": "Kernel: (V) the REAL WriteTransaction::commit_inner_helper: an acknowledged commit has applied the savepoint bookkeeping (deleted savepoints released, restored-over ones invalidated) as its LAST step, after the durable or non-durable commit it depends on; after a savepoint restore the freed-page records of the rolled-back commits are dropped FIRST; a non-durable commit keeps its freed-page records in memory under its own id and adopts nothing, a durable one writes them out. (K) the persistent-savepoint record round trip (id, transaction id, user root) and its byte layout, for every id and every root header. BOUNDED (native): the savepoint bookkeeping of the real TransactionTracker - every registered savepoint holds exactly one pin on its transaction until it is deallocated, invalidation keeps the pins, oldest_savepoint_excluding / list_savepoints_after / any_*_savepoint_exists agree with the set of valid savepoints; the transaction-local SavepointTransactionState: a commit releases the pins of deleted savepoints and invalidates restored-over ones without touching their pins, an abort releases exactly the savepoints created in the transaction, both leave the local state empty.",
@@ -274,9 +275,10 @@ P["C11"] = {
     "verus": [{"unit": "alloc", "functions": ["BuddyAllocator::record_alloc", "BuddyAllocator::record_alloc_inner", "BS::*", "lemma_*", "Allocators::new", "RegionTracker::new", "BuddyAllocator::new",
                                               "Allocators::resize_to", "Allocators::lemma_*", "DatabaseLayout::recalculate", "DatabaseHeader::layout", "DatabaseHeader::set_layout",
                                               "TransactionalMemory::mark_page_allocated", "TransactionalMemory::reset_allocator_state", "TransactionalMemory::check_page_order",
-                                              "InMemoryState::get_region_mut", "Mutex::lock"]}],
+                                              "InMemoryState::get_region_mut", "Mutex::lock"]},
+              {"unit": "txcommit", "functions": ["WriteTransaction::abort_inner"]}],
     "kani": [K["C11-R3"]],
-    "explanation": "Kernel: rebuild = reset + one mark per reachable page. The REAL TransactionalMemory::reset_allocator_state leaves an allocator state that matches the header's layout with EVERY page free (Allocators::new, BuddyAllocator::new: greedy decomposition, lemma_greedy_all_free); the REAL TransactionalMemory::mark_page_allocated accepts a page number only if it names a block inside an existing region of the layout that was entirely free, then exactly its pages stop being free, every other region is untouched and the state stays consistent with the header; a refused page number (order > 20, region or block out of range, overlap with an allocated page) changes no allocator. record_alloc marks exactly the named block (true iff the block lay inside a free block, which it then no longer does, every other page keeps its state) or refuses with the allocator unchanged, I1 and I2 preserved; (R4) Allocators::resize_to - the reconciliation of a loaded allocator state with the layout of the file being opened - gives every region the size the layout says, keeps wf and TRK, marks dropped regions full and leaves unchanged regions untouched (against assumed contracts of the resize family); the allocator-state key codec orders Region(i) by i and before the tracker and the transaction id, which the snapshot loader's range scans rely on.",
+    "explanation": "Kernel: rebuild = reset + one mark per reachable page. The REAL TransactionalMemory::reset_allocator_state leaves an allocator state that matches the header's layout with EVERY page free (Allocators::new, BuddyAllocator::new: greedy decomposition, lemma_greedy_all_free); the REAL TransactionalMemory::mark_page_allocated accepts a page number only if it names a block inside an existing region of the layout that was entirely free, then exactly its pages stop being free, every other region is untouched and the state stays consistent with the header; a refused page number (order > 20, region or block out of range, overlap with an allocated page) changes no allocator; the REAL WriteTransaction::abort_inner keeps the repair latch set when the rollback fails part way (its pages stay allocated, so the allocator state is never persisted as clean) and restores it after a complete rollback. record_alloc marks exactly the named block (true iff the block lay inside a free block, which it then no longer does, every other page keeps its state) or refuses with the allocator unchanged, I1 and I2 preserved; (R4) Allocators::resize_to - the reconciliation of a loaded allocator state with the layout of the file being opened - gives every region the size the layout says, keeps wf and TRK, marks dropped regions full and leaves unchanged regions untouched (against assumed contracts of the resize family); the allocator-state key codec orders Region(i) by i and before the tracker and the transaction id, which the snapshot loader's range scans rely on.",
     "not_decided": "which pages ARE reachable; is_valid_allocator_state's staleness comparison (needs a B-tree); histories and crash points; the tracker's persistent-savepoint pins rebuilt at open (register_persistent_savepoint: one pin per savepoint, also when several savepoints share a transaction) only BOUNDED (native C11-X-pins3)",
 }
 P["C15"] = {
